@@ -27,6 +27,8 @@ func checkC17(c *Ctx, r *Report) {
 	c17Validity(c, r)
 	c17IterLoop(c, r)
 	c17KeyTag(c, r)
+	r.rule("C17.R5.ecdsa-widths", 1, "ECDSA keys are written and read with RFC 6605's coordinate widths per algorithm")
+	ecdsaWidths(c, r, "C17.R5.ecdsa-widths")
 	r.rule("C17.R5.alg-coverage", 2, "every algorithm Generate makes keys for can be re-read by ReadPrivateKey and has a hash")
 	algorithmCoverage(c, r, "C17.R5.alg-coverage", []string{"DNSKEY.ReadPrivateKey", "AlgorithmToHash"})
 }
